@@ -29,6 +29,11 @@ import unicodedata
 from .prologVisitor import prologVisitor
 from .errors import CompilerError
 
+def comment_lines(msg):
+    '''formats msg as comment lines for the generated code: every line of msg,
+    also the lines after a line break inside a quoted atom, gets a '# ' prefix.'''
+    return ''.join('# ' + line + '\n' for line in re.split(r'\r\n|\r|\n', msg))
+
 class PredicateList:
     def __init__(self,head,tail):
         self.head = head
@@ -218,7 +223,7 @@ class YPPrologVisitor(prologVisitor):
 
     def _debug(self,*args):
         if self.context.debug_parser:
-            self.context.outf.write('# ' + " ".join([str(a) for a in args]) + '\n')
+            self.context.outf.write(comment_lines(" ".join([str(a) for a in args])))
 
     def visitProgram(self,ctx):
         clauses = {}
